@@ -16,6 +16,8 @@
 (*                 static context with projection and logs                 *)
 (*   StaticWrite - a state-modifying instruction got past the interpreter  *)
 (*                 in static context                                       *)
+(*   Receipt     - (receipt layer) a history executed as a transaction by  *)
+(*                 the block executor: status and logs of its receipt      *)
 (*   TxEnd       - GetLogs(txHash) (the receipt's logs), the logs the      *)
 (*                 outermost call returned (they go into the receipt's     *)
 (*                 result string), the sizes of the earlier receipts       *)
@@ -77,12 +79,36 @@ JudgeTxEnd(e) ==
   Tag(e.ok \/ e.receipt = <<>>, "Inv.failed-tx-has-logs") \o
   Tag(e.prev = nreceipts, "Inv.earlier-receipt-changed")
 
+(* ---- receipt layer: the history run as a real transaction through the block executor ---------------- *)
+(* The log sites of a history are numbered in token order.  Fold the tokens with a stack of "logs so far"  *)
+(* marks: a frame that fails takes its logs (and those of its descendants) with it.                        *)
+RECURSIVE SurvR(_, _, _, _, _)
+SurvR(h, i, lg, marks, n) ==
+  IF i > Len(h) THEN lg
+  ELSE LET t == h[i] IN
+       CASE t.op \in {"tx", "enter"} -> SurvR(h, i + 1, lg, Append(marks, Len(lg)), n)
+         [] t.op = "log"  -> SurvR(h, i + 1, Append(lg, n + 1), marks, n + 1)
+         [] t.op = "ok"   -> SurvR(h, i + 1, lg, SubSeq(marks, 1, Len(marks) - 1), n)
+         [] t.op = "fail" -> SurvR(h, i + 1, SubSeq(lg, 1, marks[Len(marks)]), SubSeq(marks, 1, Len(marks) - 1), n)
+         [] OTHER         -> SurvR(h, i + 1, lg, marks, n)
+Surviving(h) == SurvR(h, 1, <<>>, <<>>, 0)
+HasCodestore(h) == \E i \in 1..Len(h) : h[i].op = "fail" /\ h[i].mode = "codestore"
+
+JudgeReceipt(e) ==
+  LET h == e.hist
+      sfx == IF HasCodestore(h) THEN ":codestore" ELSE ""
+  IN Tag(e.found /\ e.evicted = 0, "Proj.no-receipt") \o
+     Tag(e.ok = (h[Len(h)].op = "ok"), "Inv.receipt-status" \o sfx) \o
+     Tag(e.logs = Surviving(h), "Inv.failed-frame-changed-logs:receipt" \o sfx) \o
+     Tag(e.getlogs = Surviving(h), "Inv.failed-frame-changed-logs:state" \o sfx)
+
 Judge(e) ==
   CASE e.event = "TxBegin" -> JudgeTxBegin(e)
     [] e.event = "After" -> JudgeAfter(e)
     [] e.event = "Exit" -> JudgeExit(e)
     [] e.event = "StaticWrite" -> <<"Inv.static-write-executed:" \o OpTag(e.op)>>
     [] e.event = "TxEnd" -> JudgeTxEnd(e)
+    [] e.event = "Receipt" -> JudgeReceipt(e)
     [] e.event \in {"Reset", "Before", "Enter", "Fault", "Step"} -> <<>>
     [] OTHER -> <<"Proj.unknown-event">>
 
